@@ -7,7 +7,7 @@ import casadi as ca
 import numpy as np
 
 from .. import families as fam
-from ..dsl import (Cfg, Spec, Sym, Con, E, X, U, Pg, Vg, t, T, t0, tf, nl1, nl2, at_t0, at_tf, integral, sum_, C)
+from ..dsl import (nxt, Cfg, Spec, Sym, Con, E, X, U, Pg, Vg, t, T, t0, tf, nl1, nl2, at_t0, at_tf, integral, sum_, C)
 from ..extract import param_value, quiet
 from ..instance import Inst, NPTS
 from ..match import Checker, close
@@ -41,7 +41,9 @@ def pmodel():
                      Sym('vec', 'control', rows=2, value=None)],
              note='all parameter kinds')
     s.cons = [Con('<=', X(0), Pg('pc') + Pg('m', 3)), Con('>=', X(1), -Pg('pp')), Con('==', at_t0(X(0)), Pg('a')),
-              Con('<=', at_tf(X(1)), Pg('m', 0) * Pg('pp')), Con('<=', U(0) * Pg('vec', 1), Pg('vec', 0) + 40)]
+              Con('<=', at_tf(X(1)), Pg('m', 0) * Pg('pp')), Con('<=', U(0) * Pg('vec', 1), Pg('vec', 0) + 40),
+              # per-node / per-interval parameters inside shifted operands: the instance of the last interval reads the final column
+              Con('<=', nxt(X(0)) - nxt(Pg('pp')), 60), Con('>=', nxt(Pg('pc') * X(1)) + X(0), -70)]
     s.objective = [integral(X(0) * Pg('pc')), sum_(U(0) * U(0) * Pg('vec', 0)), at_tf(X(1)) * Pg('a'), sum_(X(0) * Pg('pp'), include_last=True)]
     return s
 
